@@ -556,7 +556,7 @@ def _request_job(a):
     arena = Arena()
     # budget: the same number of checked memory accesses per request, not the same number of runs
     per_run = max(1, sum(est.values()) // max(1, len(est))) * 6  # ~2.5 batches x ~2.5 jobs
-    budget = int(os.environ.get("VERIF_ACCESS_BUDGET", 0)) or (3_000_000_000 if thorough else 400_000_000)
+    budget = int(os.environ.get("VERIF_ACCESS_BUDGET", 0)) or (3_000_000_000 if thorough else 800_000_000)
     nruns = max(40, min(nruns, budget // per_run))
     scns = explicit if explicit is not None else [
         gen_run(core.run_seed(base, i) * 1009 + int(hashlib.sha1(name.encode()).hexdigest()[:6], 16), len(first.kernels),
@@ -683,7 +683,7 @@ def run_check(prop, tier, base, replay_path=None):
     if os.environ.get("VERIF_ONLY"):  # debugging aid: restrict the pool (evidence is not written)
         names = [n for n in names if n in os.environ["VERIF_ONLY"].split(",")]
         os.environ["VERIF_NO_EVIDENCE"] = "1"
-    nruns = int(os.environ.get("VERIF_RUNS", 0)) or (20000 if thorough else 6000)
+    nruns = int(os.environ.get("VERIF_RUNS", 0)) or (20000 if thorough else 10000)
     workroot = core.scratch_dir("kern-")
     opts = ["-O2", "-O1", "-O0"] if thorough else ["-O2", "-O1"]
     jobs = [(n, o, base, nruns, thorough, workroot, None) for n in names for o in opts]
